@@ -105,17 +105,17 @@ func split(b []byte, sizes []int) [][]byte {
 // ---- per-connection state -------------------------------------------------------------------
 
 type connState struct {
-	id       int
-	spec     connSpec
-	cfg      fx.Cfg
-	conn     gnet.Conn
-	expected bytes.Buffer // loop goroutine only: accepted payloads in effect order
-	pc       int
-	seq      map[int]int // loop goroutine only, except external producers own their pid
-	effSeq   map[int]int // loop goroutine only: next sequence number due per async producer
-	nextPid  int
-	pending  int32       // async operations issued whose callback has not run
-	externs  int32       // external producers still running
+	id        int
+	spec      connSpec
+	cfg       fx.Cfg
+	conn      gnet.Conn
+	expected  bytes.Buffer // loop goroutine only: accepted payloads in effect order
+	pc        int
+	seq       map[int]int // loop goroutine only, except external producers own their pid
+	effSeq    map[int]int // loop goroutine only: next sequence number due per async producer
+	nextPid   int
+	pending   int32 // async operations issued whose callback has not run
+	externs   int32 // external producers still running
 	scriptEnd int32
 	doneTotal int64 // -1 until everything has taken effect
 	received  int64 // bytes the peer has read (atomic, written by the peer)
@@ -586,7 +586,7 @@ func drawSplit(t *rapid.T, total int) []int {
 func drawSize(t *rapid.T, c fx.Cfg, big bool) int {
 	sizes := []int{0, 1, 100, c.WriteCap - hdr - 1, c.WriteCap - hdr, c.WriteCap - hdr + 1, 1024 - hdr, 5000, 20000}
 	if big {
-		sizes = append(sizes, 200000, 1 << 20, 3 << 20)
+		sizes = append(sizes, 200000, 1<<20, 3<<20)
 	}
 	return rapid.SampledFrom(sizes).Draw(t, "size")
 }
